@@ -1,4 +1,5 @@
 import CTV.Model.Faults
+import CTV.Model.HandlerSpec
 /-!
 # C08 — backend faults and bad requests never surface as success
 
@@ -326,10 +327,12 @@ theorem pre_params (cfg : Cfg) (ep : Ep) (q : Req) (p : Params) (h : pre cfg ep 
       · rename_i s' e' hr
         have hok : (Gen.parseGetEntriesRange s e cfg.max cfg.align).isSome := by rw [hr]; rfl
         have h0 : 0 ≤ s ∧ s ≤ e := by
-          unfold Gen.parseGetEntriesRange at hok
+          rw [Gen.parseGetEntriesRange_eq_spec] at hok
+          unfold Spec.parseGetEntriesRange at hok
           by_cases a1 : s < 0 <;> by_cases a2 : e < 0 <;> by_cases a3 : s > e <;> simp [a1, a2, a3] at hok <;> omega
         have hs' : s' = s := by
-          unfold Gen.parseGetEntriesRange at hr
+          rw [Gen.parseGetEntriesRange_eq_spec] at hr
+          unfold Spec.parseGetEntriesRange at hr
           repeat (split at hr; · simp at hr)
           simp at hr; exact hr.1.symm
         subst hs'
@@ -343,7 +346,8 @@ theorem pre_params (cfg : Cfg) (ep : Ep) (q : Req) (p : Params) (h : pre cfg ep 
       split at h
       · simp at h
       · rename_i i' n' hr
-        unfold Gen.parseGetEntryAndProofParams at hr
+        rw [Gen.parseGetEntryAndProofParams_eq_spec] at hr
+        unfold Spec.parseGetEntryAndProofParams at hr
         repeat (split at hr; · simp at hr)
         rename_i a1 a2 a3
         simp at a1 a2 a3 hr h
@@ -361,7 +365,8 @@ theorem pre_params (cfg : Cfg) (ep : Ep) (q : Req) (p : Params) (h : pre cfg ep 
     split at h
     · simp at h
     rename_i hz
-    unfold Gen.parseGetSTHConsistencyRange at hp
+    rw [Gen.parseGetSTHConsistencyRange_eq_spec] at hp
+    unfold Spec.parseGetSTHConsistencyRange at hp
     simp only [Bool.or_eq_true, Bool.and_eq_true, bne_iff_ne, ne_eq, Bool.not_eq_true, Option.isNone_iff_eq_none, not_or, not_and] at hmal
     repeat (split at hp; · simp at hp)
     rename_i hm1 hm2 a3 a4
@@ -418,7 +423,8 @@ theorem pre_status (cfg : Cfg) (ep : Ep) (q : Req) (st : Nat) (h : pre cfg ep q 
       simp at h
       right; left
       refine ⟨h.symm, Or.inr ⟨rfl, ?_⟩⟩
-      unfold Gen.parseGetSTHConsistencyRange at hp
+      rw [Gen.parseGetSTHConsistencyRange_eq_spec] at hp
+      unfold Spec.parseGetSTHConsistencyRange at hp
       simp only [Bool.or_eq_true, Bool.and_eq_true, bne_iff_ne, ne_eq, Bool.not_eq_true, Option.isNone_iff_eq_none, not_or, not_and] at hmal
       repeat (split at hp; · simp at hp)
       rename_i hm1 hm2 a3 a4
